@@ -8,7 +8,7 @@ from .. import runcheck, monitors, problems
 
 
 def run(ctx):
-    bdir, A = runcheck.setup(ctx, ["Wrap:memo_returns|wrappers_pass", "C05", "C05Crs"] + runcheck.drv("best_|returned_pair"))
+    bdir, A = runcheck.setup(ctx, ["Wrap:memo_returns|wrappers_pass", "C05", "C05Crs"] + runcheck.drv("best_|returned_pair|^t4_|^T4"))
     if bdir:
         rng = __import__("random").Random(ctx.seed * 31 + 5)
         ps = []
